@@ -8,8 +8,8 @@
 //!                            old token/comment in walk order, keep=0 for the `: ScalarType` of a
 //!                            `for` statement (found by a pattern on the token texts, not by the
 //!                            migrator's walker)                                                oracle `?`
-//!   `migfix <rawhex> [toks]` same request for the repaired column tracking (impl = same output; compared
-//!                            by the check only to attribute failures)
+//!   `positions`              impl `same` | `differ@…`: the old tokens' reported (line, column) against
+//!                            the true ones found by scanning the source                        oracle `same`
 //!   `parse`                  impl `ok` | `err`                                                 oracle `ok`
 //!   `tokens`                 impl = token texts of the re-parsed output                        oracle = old tokens minus annotation
 //!   `comments`               impl = comment texts of the re-parsed output                      oracle = all old comments
@@ -285,21 +285,21 @@ fn run_case(o: &mut Out, src: &str, tag: &str) {
         flat.iter().map(|(t, l, c, k, _)| format!("{}:{:x}:{:x}:{}", hx(t), l, c, *k as u8)).collect::<Vec<_>>().join(",")
     );
     o.log.push3(format!("mig {} {}", hx(src), toks), hx(&out), "?".into());
-    o.log.push3(format!("migfix {} {}", hx(src), toks), hx(&out), "?".into());
-    // the same token list with the TRUE (line, column[chars]) of every token, found by scanning the
-    // source (only written when it differs: the old parser's comment columns count bytes)
-    if let Some(tr) = true_positions(src, &flat) {
-        if tr.iter().zip(flat.iter()).any(|((l, c), f)| *l != f.1 as usize || *c != f.2 as usize) {
-            let toks_t = format!(
-                "[{}]",
-                flat.iter().zip(tr.iter()).map(|((t, _, _, k, _), (l, c))| format!("{}:{:x}:{:x}:{}", hx(t), l, c, *k as u8)).collect::<Vec<_>>().join(",")
-            );
-            o.log.push3(format!("migT {} {}", hx(src), toks_t), "?".into(), "?".into());
-            o.log.push3(format!("migfixT {} {}", hx(src), toks_t), "?".into(), "?".into());
-            o.log.count("reported_positions_differ_from_true");
+    // the positions the old parser reports must be the true (line, column[chars]) of every token,
+    // found by scanning the source (its comment-splitting copy once counted bytes)
+    match true_positions(src, &flat) {
+        Some(tr) => {
+            let bad = tr.iter().zip(flat.iter()).position(|((l, c), f)| *l != f.1 as usize || *c != f.2 as usize);
+            let imp = match bad {
+                None => "same".to_string(),
+                Some(k) => format!("differ@{k:x}:{}:reported={:x}.{:x}:true={:x}.{:x}", hx(&flat[k].0), flat[k].1, flat[k].2, tr[k].0, tr[k].1),
+            };
+            o.log.push3("positions".into(), imp, "same".into());
         }
-    } else {
-        o.log.count("true_positions_unavailable");
+        None => {
+            o.log.count("true_positions_unavailable");
+            o.log.push3("positions".into(), "?".into(), "?".into());
+        }
     }
     let exp_tokens: Vec<String> = flat.iter().filter(|x| x.3 && !x.4 && !x.0.is_empty()).map(|x| x.0.clone()).collect();
     let exp_comments: Vec<String> = flat.iter().filter(|x| x.4).map(|x| x.0.clone()).collect();
